@@ -251,6 +251,7 @@ func run(prop *Prop, id, tier string, seed int64, replay, work string, start tim
 		outRoot = filepath.Join(verifRoot, "work", "scratch-out")
 	}
 	os.MkdirAll(filepath.Join(outRoot, "replay", id), 0o755)
+	os.Remove(filepath.Join(verifRoot, "work", "last-violation-keys-"+id+".txt"))
 	if len(fresh) > 0 {
 		var sb strings.Builder
 		for _, v := range fresh {
